@@ -69,7 +69,7 @@ pub fn lookup(id: &str) -> Option<Meta> {
             level: "fault_enumeration",
             quick_runs: 1_000_000,
             thorough_runs: 8_000_000,
-            max_len: 300_000,
+            max_len: 1_200_000,
             rule: "one evaluation = one history: (SGR-heavy grammar-generated input, seeded sequence of write / write_vectored / write_all / write! / failing write! / flush calls against the legacy-console stream compiled from /repo's wincon.rs, offset-keyed fault script for the simulated console: short counts, Ok(0), Interrupted, WouldBlock, hard errors, failing flush); after every call the (byte, fg, bg) sequence the console received is compared with the one-shot styled-run extraction of the prefix reported consumed, colours reduced by an independent 16-colour cap. Absolute invariant: no ESC or other non-whitespace C0 control byte is ever handed to the console as text. For inputs inside two restricted grammars the expectation is also computed by interpreters that share no code with the crates (VT500-style visible-text model; single-group SGR colour model). Per-run variations: a twin console stream fed between the calls (1 in 6), a predecessor stream unwrapped first (1 in 4), a client that gives a failed record up, sends CAN + SGR 0 and carries on (1 in 2; afterwards: what the console held, optionally more of the failed record in order, then exactly the later records), up to 80 000 tiny calls on one stream. The thorough tier adds every single fault of every kind at every text offset for generated inputs of <= 16 bytes. Non-trivial = a fault fired, or a call started while the parser was inside a sequence or character; distinct = distinct signatures of such histories",
             assumptions: &[
                 "expected colouring comes from the real one-shot WinconBytes extractor (its SGR semantics are C07, not claimed) plus an independent 16-colour capping function",
@@ -89,7 +89,7 @@ pub fn lookup(id: &str) -> Option<Meta> {
             level: "exploration",
             quick_runs: 1_500_000,
             thorough_runs: 12_000_000,
-            max_len: 300_000,
+            max_len: 1_200_000,
             rule: "one evaluation = one lock-step differential history: (construction path in {never, new(Never), always_ansi, always, new(AlwaysAnsi), new(Always)}, writer in {Box<dyn Write>, &mut dyn Write, Box<dyn Write+Send>, Vec<u8>, &mut Vec<u8>, File, &mut File}, grammar-generated input, seeded sequence of write / write_vectored / write_all / write! / failing write! / flush calls, offset-keyed fault script, optional into_inner point) applied to the AutoStream under test and to the reference (StripStream over a twin writer, or the twin writer itself) with identical fault scripts; per-call results and accepted bytes are compared after every call (pass-through modes: against a fault-free mirror of the bytes reported consumed), half of the histories carry on after a failed write, half of the simulated writers gather in write_vectored, the reported mode before, the writer returned by into_inner after. In the envsim part (single-threaded children that own the environment and the process-wide choice) streams are also built with every explicit choice through new() and the named constructors under seeded world histories: Never strips, the others forward unchanged, the reported mode is the requested one. Non-trivial = a fault fired or the history mixes at least two kinds of call; distinct = distinct signatures of such histories",
             assumptions: &[
                 "reference for Never is the real StripStream (its own contract is C06); reference for AlwaysAnsi/Always is the inner writer driven directly",
@@ -117,7 +117,7 @@ pub fn lookup(id: &str) -> Option<Meta> {
             level: "fault_enumeration",
             quick_runs: 1_500_000,
             thorough_runs: 8_000_000,
-            max_len: 300_000,
+            max_len: 1_200_000,
             rule: "one evaluation = one history: (stream surface, grammar-generated input, seeded sequence of write / write_vectored / write_all / write! / failing-Display write! / flush calls, offset-keyed fault script for the inner writer) executed against the real strip stream with the oracle evaluated after every client call (strided on long-lived histories of up to 80 000 calls). Besides the differential reference (the real one-shot stripper) two absolute oracles: no ESC/DEL/non-whitespace C0 byte ever reaches the inner writer (inputs with a control byte right after an incomplete multi-byte character excepted), and for inputs inside a restricted well-formed grammar the stripped form must equal an independent VT500-style interpretation. Per-run variations: a client that resubmits after any failed write (1 in 2), a client that gives a failed write_all/write! record up, sends CAN and carries on with the next records (1 in 2), a twin StripStream fed between the calls (1 in 6), predecessor streams created and unwrapped first (1 in 4), an inner writer whose write_vectored gathers all slices in one decision (1 in 2; otherwise the io::Write default). The thorough tier adds, for every generated input of <= 10 bytes, every single fault of {Short(1..3), Ok(0), Interrupted, WouldBlock, hard} at every accepted-byte offset and every pair of {Short(1), Interrupted, Ok(0), WouldBlock} placements. Non-trivial = at least one fault fired while the carried parser state was not ground, inside a multi-byte character, or after partial progress within the call; distinct = distinct FNV-1a signatures of (surface, input, ops, faults) among the non-trivial histories. 20 % of the seeded histories are a separate fault-free configuration with the same strict oracle",
             assumptions: &[
                 "reference for 'the stripped form' is the real one-shot strip_bytes of the prefix reported consumed (chunk-invariance of strip_bytes is established separately by C03)",
@@ -158,7 +158,7 @@ pub fn lookup(id: &str) -> Option<Meta> {
             level: "exploration",
             quick_runs: 2_000_000,
             thorough_runs: 16_000_000,
-            max_len: 300_000,
+            max_len: 1_200_000,
             rule: "one evaluation = one (surface, input, chunking) executed against the real adapters and compared with the same real code run one-shot; inputs come from a swarm-weighted token grammar (text, UTF-8, C0/DEL, SGR/CSI/ESC/OSC/DCS/SOS/PM/APC, controls inside sequences, truncated sequences, malformed UTF-8), chunkings from {single, all single bytes, uniform 1..k, cuts aimed inside tokens, empty chunks}; the thorough tier adds all 2^(n-1) cut sets of every generated input of <= 12 bytes. A case is non-trivial when at least one cut falls strictly inside the input while the (coverage-only) shadow parser is not in the ground state, i.e. inside an escape sequence or a multi-byte character; distinct = distinct FNV-1a signatures of (surface, input, chunk lengths) among the non-trivial cases",
             assumptions: &[
                 "the one-shot result of the real code is the reference (what stripping means is C01, not claimed here)",
